@@ -393,6 +393,18 @@ def run(prop, tier, seed):
     ]
     run_macro_level(res, prop, tier, seed)
     if prop == "C12":
+        # the tree-building pipeline, for every order of the two registration lists (Tree.tla);
+        # three harmless-looking reorderings of its steps must each break the invariant
+        r = V.tlc_mc("MC_Tree", "Tree_q", workers=4)
+        res.add_mc("Tree_q", r)
+        if not r.get("ok"):
+            raise V.ToolError(f"MC_Tree: {r.get('violated') or r.get('error')}")
+        for cfg in ("Tree_v_one_pass", "Tree_v_retain_first", "Tree_v_skip_generic_groups"):
+            r = V.tlc_mc("MC_Tree", cfg, workers=1, coverage=False)
+            res.extra.setdefault("necessity_variants", []).append(
+                {"config": cfg, "expected": ["ResultIsDeclarative", "GroupsReachTheirBenchmarks"], "got": r.get("violated")})
+            if r.get("violated") not in ("ResultIsDeclarative", "GroupsReachTheirBenchmarks"):
+                raise V.ToolError(f"{cfg}: expected a violation, got {r.get('violated')}")
         push_order_level(res, tier, seed)
         import check_entrylist
         check_entrylist.level(res, tier, seed)
